@@ -182,6 +182,69 @@ theorem checkC13core_sound {cs : MagCaseQ} {d : MagDatasetQ} (h : checkC13core c
             exact symFail_none_mag hnone
           · split at this <;> cases this
 
+/-- Completeness of the clause list (no false alarm): non-degenerate lattices and tolerances inside
+the scanned windows. -/
+theorem checkC13core_complete {cs : MagCaseQ} {d : MagDatasetQ}
+    (hI : cs.mc.cell.lat.det ≠ 0) (hwI : Window cs.mc.cell.lat ((4 * d.symprec) * (4 * d.symprec)))
+    (hS : d.std.cell.lat.det ≠ 0) (hwS : Window d.std.cell.lat ((4 * d.symprec) * (4 * d.symprec)))
+    (hwE : Window d.std.cell.lat ((1 / 100000000) * (1 / 100000000)))
+    (hP : d.prim.cell.lat.det ≠ 0) (hwP : Window d.prim.cell.lat ((4 * d.symprec) * (4 * d.symprec)))
+    (h : Spec.C13 cs d) : checkC13core cs d = [] := by
+  unfold checkC13core
+  simp only [List.append_eq_nil_iff]
+  refine ⟨⟨⟨⟨⟨⟨⟨⟨?_, ?_⟩, ?_⟩, ?_⟩, ?_⟩, ?_⟩, ?_⟩, ?_⟩, ?_⟩
+  · apply if_pos
+    rw [Bool.and_eq_true, decide_eq_true_eq]
+    refine ⟨matClose_complete ?_, h.rot_proper⟩
+    unfold EntriesClose
+    rw [one_maxAbs]
+    have := h.rot_orthogonal
+    norm_num at this ⊢
+    exact this
+  · exact if_pos (matClose_complete h.std_lattice)
+  · exact if_pos (matClose_complete h.prim_lattice)
+  · rw [firstFail_eq_nil]
+    intro i hi
+    rw [if_pos (findMagSite_complete hS hwS (h.input_lands i hi))]
+  · rw [firstFail_eq_nil]
+    intro j hj
+    obtain ⟨i, hi, hn, hp, hm⟩ := h.std_reached j hj
+    rw [if_pos]
+    refine findSel2_complete (j := i) hi ?_ (momClose_iff.2 hm) (withinPeriodic_complete hI hwI hp)
+    simpa [SiteIndex.build] using hn
+  · exact if_pos h.atom_count
+  · rw [firstFail_eq_nil]
+    intro i hi
+    obtain ⟨j, hj, c1, c2, c3, c4⟩ := h.prim_mapping i hi
+    rw [hj]
+    simp only
+    rw [if_neg, if_neg]
+    · simp only [Bool.not_eq_true, Bool.not_eq_false']
+      exact momClose_iff.2 c4
+    · simp only [Bool.not_eq_true, Bool.not_eq_false', Bool.and_eq_true, decide_eq_true_eq, beq_iff_eq]
+      exact ⟨⟨c1, c2⟩, withinPeriodic_complete hP hwP c3⟩
+  · rw [firstFail_eq_nil]
+    intro k hk
+    rw [symFail_mag_complete hS hwE (h.reported_symmetric _ (mem_of_getElem! hk))]
+  · obtain ⟨e, he, ⟨conv, hconv, hr⟩, ht⟩ := h.tabulated_symmetric
+    rw [he]
+    simp only [List.append_eq_nil_iff]
+    refine ⟨?_, ?_⟩
+    · rw [hconv]
+      simp only
+      rw [firstFail_eq_nil]
+      intro k hk
+      rw [getElem!_pos conv k hk, symFail_pos_complete hS hwE (hr _ (List.getElem_mem hk))]
+    · cases hex : exceptedEntry e
+      · obtain ⟨conv', hconv', hm⟩ := ht hex
+        simp only [Bool.false_eq_true, if_false]
+        rw [hconv']
+        simp only
+        rw [firstFail_eq_nil]
+        intro k hk
+        rw [getElem!_pos conv' k hk, symFail_mag_complete hS hwE (hm _ (List.getElem_mem hk))]
+      · simp
+
 /-- **Soundness of the C13 oracle.**  `checkC13` appends a diagnostic line to a non-empty clause list
 and is otherwise the clause list, so a silent `checkC13` means `Spec.C13` holds of the dataset. -/
 theorem checkC13_sound {cs : MagCaseQ} {d : MagDatasetQ} (h : checkC13 cs d = []) : Spec.C13 cs d := by
